@@ -22,26 +22,28 @@ EXTENDS DisruptionGuards, Json
 
 CONSTANTS MaxNow, MaxLen, Dedupe, WeakC
 
-VARIABLES ca, static, initAt, now, lpe, cond, wAt, wLpe, h
-vars == <<ca, static, initAt, now, lpe, cond, wAt, wLpe, h>>
-view == <<ca, static, initAt, now, lpe, cond, wAt, wLpe>>
+VARIABLES ca, static, initAt, now, lpe, cond, wAt, wLpe, h, wk
+vars == <<ca, static, initAt, now, lpe, cond, wAt, wLpe, h, wk>>
+view == <<ca, static, initAt, now, lpe, cond, wAt, wLpe, wk>>
+AllWeakC == {"offByOne", "ignorePodEvent", "static"}
 
-Init == /\ ca \in {-1, 0, 2} /\ static \in BOOLEAN /\ initAt \in {-1, 0}
+Init == /\ wk \in (IF WeakC = "*" THEN AllWeakC ELSE {WeakC})
+        /\ ca \in {-1, 0, 2} /\ static \in BOOLEAN /\ initAt \in {-1, 0}
         /\ now = 0 /\ lpe = -1 /\ cond = "Absent" /\ wAt = -1 /\ wLpe = -1 /\ h = <<>>
 
 Tick(d) == /\ now + d <= MaxNow /\ now' = now + d /\ h' = Append(h, [a |-> "Tick", d |-> d])
-           /\ UNCHANGED <<ca, static, initAt, lpe, cond, wAt, wLpe>>
+           /\ UNCHANGED <<ca, static, initAt, lpe, cond, wAt, wLpe, wk>>
 
 PodEvent == /\ initAt >= 0     \* pods bind to initialized nodes
             /\ lpe' = IF lpe < 0 \/ now - lpe >= Dedupe THEN now ELSE lpe
             /\ h' = Append(h, [a |-> "PodEvent", d |-> 0])
-            /\ UNCHANGED <<ca, static, initAt, now, cond, wAt, wLpe>>
+            /\ UNCHANGED <<ca, static, initAt, now, cond, wAt, wLpe, wk>>
 
-Rule == IF WeakC = "offByOne"
+Rule == IF wk = "offByOne"
           THEN ~static /\ ca >= 0 /\ initAt >= 0 /\ now - ConsolidatableRef(lpe, initAt) >= ca - 1
-        ELSE IF WeakC = "ignorePodEvent"
+        ELSE IF wk = "ignorePodEvent"
           THEN ~static /\ ca >= 0 /\ initAt >= 0 /\ now - initAt >= ca
-        ELSE IF WeakC = "static"
+        ELSE IF wk = "static"
           THEN ca >= 0 /\ initAt >= 0 /\ now - ConsolidatableRef(lpe, initAt) >= ca
         ELSE G_C07_Consolidatable(now, lpe, initAt >= 0, initAt, TRUE, static, ca)
 
@@ -49,9 +51,14 @@ Reconcile == /\ cond' = IF Rule THEN "True" ELSE "Absent"
              /\ wAt' = IF Rule /\ cond # "True" THEN now ELSE wAt
              /\ wLpe' = IF Rule /\ cond # "True" THEN lpe ELSE wLpe
              /\ h' = Append(h, [a |-> "Reconcile", d |-> 0])
-             /\ UNCHANGED <<ca, static, initAt, now, lpe>>
+             /\ UNCHANGED <<ca, static, initAt, now, lpe, wk>>
 
-Next == Len(h) < MaxLen /\ (Tick(1) \/ Tick(Dedupe - 1) \/ PodEvent \/ Reconcile)
+Bounded == Len(h) < MaxLen
+TickOne == Bounded /\ Tick(1)
+TickFar == Bounded /\ Tick(Dedupe - 1)
+PodEventB == Bounded /\ PodEvent
+ReconcileB == Bounded /\ Reconcile
+Next == TickOne \/ TickFar \/ PodEventB \/ ReconcileB
 Spec == Init /\ [][Next]_vars
 
 \* the statement at the write: consolidateAfter had elapsed since the last pod event known at that instant
@@ -59,6 +66,7 @@ Inv_C07_ConsolidatableJustified ==
     cond = "True" => /\ ca >= 0 /\ ~static /\ initAt >= 0
                      /\ wAt - (IF wLpe >= 0 THEN wLpe ELSE initAt) >= ca
 TypeOK == cond \in {"Absent", "True"} /\ now \in 0..MaxNow
+WeakDetect == Inv_C07_ConsolidatableJustified \/ PrintT(<<"REJ", wk>>)
 
 GenPrint == (Len(h) < MaxLen /\ ENABLED Next)
             \/ PrintT(<<"BEH", ToJson([ca |-> ca, static |-> static, inited |-> initAt >= 0, steps |-> h])>>)
